@@ -112,7 +112,13 @@ func samplePoints3(bb sdf.Box3, r *simcore.RNG, n int) []v3.Vec {
 	sz := bb.Size()
 	out := make([]v3.Vec, n)
 	for i := range out {
-		out[i] = v3.Vec{X: c.X + (r.Float64()-0.5)*1.2*sz.X, Y: c.Y + (r.Float64()-0.5)*1.2*sz.Y, Z: c.Z + (r.Float64()-0.5)*1.2*sz.Z}
+		// mostly in and just around the bounding box; every eighth point well outside it
+		// (pruning and nearest-cell logic sees many candidates from far away)
+		k := 1.2
+		if i%8 == 7 {
+			k = 4
+		}
+		out[i] = v3.Vec{X: c.X + (r.Float64()-0.5)*k*sz.X, Y: c.Y + (r.Float64()-0.5)*k*sz.Y, Z: c.Z + (r.Float64()-0.5)*k*sz.Z}
 	}
 	return out
 }
@@ -122,7 +128,11 @@ func samplePoints2(bb sdf.Box2, r *simcore.RNG, n int) []v2.Vec {
 	sz := bb.Size()
 	out := make([]v2.Vec, n)
 	for i := range out {
-		out[i] = v2.Vec{X: c.X + (r.Float64()-0.5)*1.2*sz.X, Y: c.Y + (r.Float64()-0.5)*1.2*sz.Y}
+		k := 1.2
+		if i%8 == 7 {
+			k = 4
+		}
+		out[i] = v2.Vec{X: c.X + (r.Float64()-0.5)*k*sz.X, Y: c.Y + (r.Float64()-0.5)*k*sz.Y}
 	}
 	return out
 }
